@@ -26,6 +26,7 @@ type NewRollingHistogramFn func() (*RollingHDRHistogram, error)
 type RTMetrics struct {
 	total           *RollingCounter
 	netErrors       *RollingCounter
+	countersLock    sync.Mutex // guards total and netErrors (rolling counters also mutate on read)
 	statusCodes     map[int]*RollingCounter
 	statusCodesLock sync.RWMutex
 	histogram       *RollingHDRHistogram
@@ -82,16 +83,19 @@ func NewRTMetrics(settings ...RTOption) (*RTMetrics, error) {
 
 // Export Returns a new RTMetrics which is a copy of the current one.
 func (m *RTMetrics) Export() *RTMetrics {
-	m.statusCodesLock.RLock()
-	defer m.statusCodesLock.RUnlock()
+	// Cloning a rolling counter expires its old buckets first, so exclusive locks are needed.
+	m.statusCodesLock.Lock()
+	defer m.statusCodesLock.Unlock()
 	m.histogramLock.RLock()
 	defer m.histogramLock.RUnlock()
 
 	export := &RTMetrics{}
 	export.statusCodesLock = sync.RWMutex{}
 	export.histogramLock = sync.RWMutex{}
+	m.countersLock.Lock()
 	export.total = m.total.Clone()
 	export.netErrors = m.netErrors.Clone()
+	m.countersLock.Unlock()
 	exportStatusCodes := map[int]*RollingCounter{}
 	for code, rollingCounter := range m.statusCodes {
 		exportStatusCodes[code] = rollingCounter.Clone()
@@ -114,18 +118,23 @@ func (m *RTMetrics) CounterWindowSize() time.Duration {
 // NetworkErrorRatio calculates the amont of network errors such as time outs and dropped connection
 // that occurred in the given time window compared to the total requests count.
 func (m *RTMetrics) NetworkErrorRatio() float64 {
-	if m.total.Count() == 0 {
+	m.countersLock.Lock()
+	defer m.countersLock.Unlock()
+
+	total := m.total.Count()
+	if total == 0 {
 		return 0
 	}
-	return float64(m.netErrors.Count()) / float64(m.total.Count())
+	return float64(m.netErrors.Count()) / float64(total)
 }
 
 // ResponseCodeRatio calculates ratio of count(startA to endA) / count(startB to endB).
 func (m *RTMetrics) ResponseCodeRatio(startA, endA, startB, endB int) float64 {
 	a := int64(0)
 	b := int64(0)
-	m.statusCodesLock.RLock()
-	defer m.statusCodesLock.RUnlock()
+	// Count expires old buckets, i.e. it writes: a read lock is not enough.
+	m.statusCodesLock.Lock()
+	defer m.statusCodesLock.Unlock()
 	for code, v := range m.statusCodes {
 		if code < endA && code >= startA {
 			a += v.Count()
@@ -146,15 +155,18 @@ func (m *RTMetrics) Append(other *RTMetrics) error {
 		return errors.New("RTMetrics cannot append to self")
 	}
 
-	if err := m.total.Append(other.total); err != nil {
-		return err
-	}
-
-	if err := m.netErrors.Append(other.netErrors); err != nil {
-		return err
-	}
-
 	copied := other.Export()
+
+	m.countersLock.Lock()
+	if err := m.total.Append(copied.total); err != nil {
+		m.countersLock.Unlock()
+		return err
+	}
+	if err := m.netErrors.Append(copied.netErrors); err != nil {
+		m.countersLock.Unlock()
+		return err
+	}
+	m.countersLock.Unlock()
 
 	m.statusCodesLock.Lock()
 	defer m.statusCodesLock.Unlock()
@@ -176,29 +188,35 @@ func (m *RTMetrics) Append(other *RTMetrics) error {
 
 // Record records a metric.
 func (m *RTMetrics) Record(code int, duration time.Duration) {
+	m.countersLock.Lock()
 	m.total.Inc(1)
 	if code == http.StatusGatewayTimeout || code == http.StatusBadGateway {
 		m.netErrors.Inc(1)
 	}
+	m.countersLock.Unlock()
 	_ = m.recordStatusCode(code)
 	_ = m.recordLatency(duration)
 }
 
 // TotalCount returns total count of processed requests collected.
 func (m *RTMetrics) TotalCount() int64 {
+	m.countersLock.Lock()
+	defer m.countersLock.Unlock()
 	return m.total.Count()
 }
 
 // NetworkErrorCount returns total count of processed requests observed.
 func (m *RTMetrics) NetworkErrorCount() int64 {
+	m.countersLock.Lock()
+	defer m.countersLock.Unlock()
 	return m.netErrors.Count()
 }
 
 // StatusCodesCounts returns map with counts of the response codes.
 func (m *RTMetrics) StatusCodesCounts() map[int]int64 {
 	sc := make(map[int]int64)
-	m.statusCodesLock.RLock()
-	defer m.statusCodesLock.RUnlock()
+	m.statusCodesLock.Lock()
+	defer m.statusCodesLock.Unlock()
 	for k, v := range m.statusCodes {
 		if v.Count() != 0 {
 			sc[k] = v.Count()
@@ -221,8 +239,10 @@ func (m *RTMetrics) Reset() {
 	m.histogramLock.Lock()
 	defer m.histogramLock.Unlock()
 	m.histogram.Reset()
+	m.countersLock.Lock()
 	m.total.Reset()
 	m.netErrors.Reset()
+	m.countersLock.Unlock()
 	m.statusCodes = make(map[int]*RollingCounter)
 }
 
